@@ -238,11 +238,12 @@ class Scrollable(WidgetDecoration[WrappedWidget]):
             # Canvas is lower than available vertical space
             canv.pad_trim_top_bottom(0, fill_height)
 
+        # Resolve the pending scroll action and clamp the position also when nothing gets trimmed
+        self._adjust_trim_top(canv, size)
+
         if canv_cols <= maxcol and canv_rows <= maxrow:
             # Canvas is small enough to fit without trimming
             return canv
-
-        self._adjust_trim_top(canv, size)
 
         # Trim canvas if necessary
         trim_top = self._trim_top
